@@ -53,6 +53,7 @@ pub fn property() -> Property {
                 run: |cfg| run_part(cfg, gen::raw_pos(60), |r| PosCase { fen: gen::position(r, ClockDomain::Unmake).fen() }, check_perft),
                 replay: |v| replay_case::<PosCase, _>(v, check_perft),
             },
+            crate::props::fuzz_corpus_part!("board_ops"),
         ],
     }
 }
